@@ -52,6 +52,20 @@ func (cx *Ctx) strParts0(v ssa.Value, sub map[*ssa.Parameter]ssa.Value, depth in
 		}
 	case *ssa.ChangeType:
 		return cx.strParts0(x.X, sub, depth+1)
+	case *ssa.Convert:
+		// []byte(s) / string(b): the same text
+		if isStringType(x.X.Type()) || isStringType(x.Type()) {
+			return cx.strParts0(x.X, sub, depth+1)
+		}
+	case *ssa.MakeSlice:
+		// make([]byte, 0, n): nothing yet
+		if k, ok := constInt(x.Len); ok && k == 0 {
+			return nil
+		}
+	case *ssa.Slice:
+		if x.Low == nil && x.High == nil && x.Max == nil {
+			return cx.strParts0(x.X, sub, depth+1)
+		}
 	case *ssa.UnOp:
 		// a local assigned exactly once
 		if x.Op == token.MUL {
@@ -62,6 +76,10 @@ func (cx *Ctx) strParts0(v ssa.Value, sub map[*ssa.Parameter]ssa.Value, depth in
 			}
 		}
 	case *ssa.Call:
+		// append(octets, text...): concatenation
+		if b, isB := x.Call.Value.(*ssa.Builtin); isB && b.Name() == "append" && len(x.Call.Args) == 2 {
+			return append(cx.strParts0(x.Call.Args[0], sub, depth+1), cx.strParts0(x.Call.Args[1], sub, depth+1)...)
+		}
 		name := calleeName(x)
 		if name == "(*strings.Builder).String" && len(x.Call.Args) == 1 {
 			if al, ok := x.Call.Args[0].(*ssa.Alloc); ok {
@@ -332,6 +350,19 @@ func (cx *Ctx) strPartAlts(v ssa.Value, at ssa.Instruction) []strPartAlt {
 			return []strPartAlt{{Parts: cx.strParts(v)}}
 		}
 		switch x := v.(type) {
+		case *ssa.Call:
+			if b, isB := x.Call.Value.(*ssa.Builtin); isB && b.Name() == "append" && len(x.Call.Args) == 2 {
+				var out []strPartAlt
+				for _, l := range rec(x.Call.Args[0], depth+1) {
+					for _, r := range rec(x.Call.Args[1], depth+1) {
+						if len(out) >= 16 {
+							break
+						}
+						out = append(out, strPartAlt{append(append([]strPart{}, l.Parts...), r.Parts...), append(append([]Atom{}, l.Atoms...), r.Atoms...), l.Tag + r.Tag})
+					}
+				}
+				return out
+			}
 		case *ssa.BinOp:
 			if x.Op == token.ADD && isStringType(x.Type()) {
 				var out []strPartAlt
